@@ -27,6 +27,29 @@ def run(fx, rep, tier):
     rule_callers(fx, rep)
     rule_clock(fx, rep)
     rule_history(fx, rep)
+    rule_key(fx, rep)
+
+
+def rule_key(fx, rep):
+    """Repetition is recognised by key equality (C11-REPKEY), so the same position reached along different move orders must
+    carry the same key: the key written incrementally by make_move / undo_move has to equal the from-scratch key of the
+    position - in particular a component must be toggled exactly when the state it encodes changes (seed C11-5b: a castling
+    word flipped again for a right that was already lost makes identical positions differ). These are the C03 clauses,
+    re-reported here as the premise of the repetition verdict."""
+    import core
+    import pC03
+    sub = type(rep)(rep.prop, rep.tier)
+    q = core.QUIET
+    core.QUIET = True
+    try:
+        pC03.run(fx, sub, rep.tier)
+    finally:
+        core.QUIET = q
+    for v in sub.violations:
+        rep.violation("C11-KEY", v["key"].replace("C03-", "C11-KEY/", 1), v["msg"] + " (identical positions then carry different keys, or different positions the same one: repetitions are missed or invented)", v["site"])
+    rep.obligations += sub.obligations
+    rep.discharged += sub.discharged
+    rep.rule("C11-KEY", sub.obligations, 100, not sub.violations, "equal positions carry equal keys (shared with C03)")
 
 
 def rule_history(fx, rep, rid="C11-HISTORY"):
@@ -266,21 +289,39 @@ def rule_fifty(fx, rep):
 # ---- C11-REPKEY ----------------------------------------------------------------------------
 
 
-def clock_path_taken(conds, clock):
-    """evaluate the clock comparisons of a path for a concrete clock value; None if a condition is not a clock comparison"""
+def clock_path_taken(conds, clock, hist_len=None):
+    """evaluate the clock comparisons of a path for a concrete clock value (and, where a condition also involves the length
+    of the history, a concrete length); None if a condition is neither"""
+    def val(x):
+        x = deep_strip(x)
+        if isinstance(x, tuple) and x[0] == "const" and isinstance(x[1], int):
+            return x[1]
+        if isinstance(x, tuple) and x[0] == "cast":
+            return val(x[1])
+        if isinstance(x, tuple) and x[0] == "call" and isinstance(x[1], str) and x[1].split("::")[-1] == "len" and len(x[2]) == 1 and \
+                any(isinstance(y, tuple) and len(y) == 3 and y[0] == "field" and y[2] == "history" for y in walk(x[2][0])):
+            return hist_len
+        if isinstance(x, tuple) and any(isinstance(y, tuple) and len(y) == 3 and y[0] == "field" and y[2] == "halfmove_clock" for y in walk(x)) and \
+                not any(isinstance(y, tuple) and y and y[0] in ("binop", "call") for y in walk(x)):
+            return clock
+        return None
     for (e, v) in conds:
+        d = deep_strip(e)
+        if isinstance(d, tuple) and d and d[0] == "discr" and isinstance(deep_strip(d[1]), tuple) and deep_strip(d[1])[0] == "call" and \
+                str(deep_strip(d[1])[1]).endswith("checked_sub"):
+            c = deep_strip(d[1])
+            x, y = val(c[2][0]), val(c[2][1])
+            if x is None or y is None:
+                return None
+            res = x >= y  # Some
+            truth = (v == 1) if isinstance(v, int) else (1 not in v[1])
+            if res != truth:
+                return False
+            continue
         co = cmp_op(e)
         if not co:
             return None
-        a, c = deep_strip(co[1]), deep_strip(co[2])
-        def val(x):
-            if isinstance(x, tuple) and x[0] == "const" and isinstance(x[1], int):
-                return x[1]
-            if isinstance(x, tuple) and any(isinstance(y, tuple) and len(y) == 3 and y[0] == "field" and y[2] == "halfmove_clock" for y in walk(x)) and \
-                    not any(isinstance(y, tuple) and y and y[0] == "binop" for y in walk(x)):
-                return clock
-            return None
-        x, y = val(a), val(c)
+        x, y = val(co[1]), val(co[2])
         if x is None or y is None:
             return None
         res = {"Eq": x == y, "Ne": x != y, "Lt": x < y, "Le": x <= y, "Gt": x > y, "Ge": x >= y}[co[0]]
@@ -296,17 +337,22 @@ def rule_repkey(fx, rep):
     scans = []
     recognised = bool(paths)
     early_ok = True
+    early_witness = None
     for conds, ret, bb in paths:
         r = deep_strip(ret)
-        if isinstance(r, tuple) and r[0] == "call" and r[1].endswith("Iterator::any"):
+        if isinstance(r, tuple) and r[0] == "call" and (r[1].endswith("Iterator::any") or r[1].endswith("Iterator>::any")):
             scans.append((conds, r))
         elif isinstance(r, tuple) and r[0] == "const" and r[1] == 0:
             # an early `false`: sound only for clocks below 4 (no position can recur within three reversible plies)
-            taken = [c for c in range(0, 12) if clock_path_taken(conds, c)]
-            if any(clock_path_taken(conds, c) is None for c in range(0, 12)):
+            # (a repetition needs four reversible plies on record: clock >= 4 and at least 4 history entries; a game set up
+            # from a FEN with a running clock has fewer entries than its clock says)
+            grid = [(c, L) for c in range(0, 14) for L in range(0, 14)]
+            res = {(c, L): clock_path_taken(conds, c, L) for (c, L) in grid}
+            if any(r is None for r in res.values()):
                 recognised = False
-            elif taken and max(taken) > 3:
+            elif any(r and c > 3 and L > 3 for (c, L), r in res.items()):
                 early_ok = False
+                early_witness = min((c, L) for (c, L), r in res.items() if r and c > 3 and L > 3)
         else:
             recognised = False
     if not recognised or not scans:
@@ -324,7 +370,7 @@ def rule_repkey(fx, rep):
     n += 1
     rep.obligation(early_ok)
     if not early_ok:
-        bad("early-return", "the scan is skipped (returns false) for halfmove clocks of 4 or more, where a repetition is possible")
+        bad("early-return", f"the scan is skipped (returns false) although a repetition is possible, e.g. with halfmove clock {early_witness[0]} and {early_witness[1]} positions on record (a game set up from a FEN with a running clock has fewer history entries than its clock says)")
     for conds, ret in scans:
         src = ret[2][0]
         names = []
@@ -335,25 +381,49 @@ def rule_repkey(fx, rep):
             if e[1].endswith("Iterator::take"):
                 take_n = deep_strip(e[2][1])
             e = deep_strip(e[2][0])
+        slice_start = None
         over_history = isinstance(e, tuple) and e[0] == "field" and e[2] == "history"
+        if over_history and "index" in names:
+            # `self.history[start..].iter().any(..)`: the window is given by the slice's start
+            ix = next((x for x in walk(deep_strip(src)) if isinstance(x, tuple) and x and x[0] == "call" and str(x[1]).endswith("::index") and len(x[2]) == 2), None)
+            rng = deep_strip(ix[2][1]) if ix else None
+            if isinstance(rng, tuple) and rng and rng[0] == "agg" and str(rng[1]).endswith("RangeFrom::RangeFrom"):
+                slice_start = deep_strip(rng[2][0])
+            else:
+                rep.notes.append("C11-REPKEY: the scan runs over a slice of the history whose bounds are not `start..`; clause not decided")
+                rep.rule("C11-REPKEY", 0, 0, True, "repetition scan over an unrecognised slice: clause not decided")
+                return
         if not over_history:
             rep.notes.append("C11-REPKEY: the scan does not iterate self.history; clause not decided")
             rep.rule("C11-REPKEY", 0, 0, True, "repetition scan not over self.history: clause not decided")
             return
         plumbing = {"iter", "deref", "into_iter", "as_slice"}
         adaptors = [x for x in names if x not in plumbing]
-        n += 1
-        good = adaptors == ["take", "rev"]
-        rep.obligation(good)
-        rep.sample({"rule": "C11-REPKEY", "scan": names, "window": show(take_n) if take_n else None})
-        if not good:
-            bad("order", f"the scan over the history is `{list(reversed(adaptors))}`; expected exactly newest-first (`rev`) limited by `take(halfmove_clock)` - any other window (take_while, skip, filter ..) can drop or add positions")
-        n += 1
-        good = take_n is not None and any(isinstance(x, tuple) and len(x) == 3 and x[0] == "field" and x[2] == "halfmove_clock" for x in walk(take_n)) and \
-            not any(isinstance(x, tuple) and x and x[0] == "binop" for x in walk(take_n))
-        rep.obligation(good)
-        if not good:
-            bad("window", f"the scan window is `{show(take_n) if take_n else None}`, not exactly the halfmove clock (positions before the last capture or pawn move cannot recur)")
+        if slice_start is not None:
+            # any() over history[len - clock ..]: order is irrelevant; the start must be exactly len - clock (checked or saturating)
+            n += 2
+            st = slice_start
+            if isinstance(st, tuple) and st[0] == "field" and isinstance(deep_strip(st[1]), tuple) and deep_strip(st[1])[0] == "as":
+                st = deep_strip(deep_strip(st[1])[1])
+            good = [x for x in adaptors if x != "index"] == [] and isinstance(st, tuple) and st[0] == "call" and str(st[1]).split("::")[-1] in ("checked_sub", "saturating_sub") and \
+                clock_path_taken([(("binop", "Eq", st[2][0], ("const", 7)), 1)], 0, 7) is True and clock_path_taken([(("binop", "Eq", st[2][1], ("const", 5)), 1)], 5, 0) is True
+            rep.obligation(good, 2)
+            rep.sample({"rule": "C11-REPKEY", "scan": names, "slice_start": show(slice_start)[:120]})
+            if not good:
+                bad("window", f"the scan runs over `history[{show(slice_start)[:100]}..]`, which is not exactly the last halfmove_clock positions")
+        else:
+            n += 1
+            good = adaptors == ["take", "rev"]
+            rep.obligation(good)
+            rep.sample({"rule": "C11-REPKEY", "scan": names, "window": show(take_n) if take_n else None})
+            if not good:
+                bad("order", f"the scan over the history is `{list(reversed(adaptors))}`; expected exactly newest-first (`rev`) limited by `take(halfmove_clock)` - any other window (take_while, skip, filter ..) can drop or add positions")
+            n += 1
+            good = take_n is not None and any(isinstance(x, tuple) and len(x) == 3 and x[0] == "field" and x[2] == "halfmove_clock" for x in walk(take_n)) and \
+                not any(isinstance(x, tuple) and x and x[0] == "binop" for x in walk(take_n))
+            rep.obligation(good)
+            if not good:
+                bad("window", f"the scan window is `{show(take_n) if take_n else None}`, not exactly the halfmove clock (positions before the last capture or pawn move cannot recur)")
         clos = [x for x in walk(ret[2][1]) if isinstance(x, tuple) and x and x[0] == "agg" and str(x[1]).startswith("closure:")]
         n += 1
         good = False
@@ -491,6 +561,17 @@ def rule_callers(fx, rep):
 
 G = "src/chess/game.rs"
 MUTANTS = [
+    {"name": "castling word toggled while any right is left (seed C11-5b)", "expect": "C11-KEY/PAIR/try_remove_castle_rights",
+     "edits": [("src/chess/game.rs", "        if !castle_rights.can_castle_to_side(castle_rights_side) {\n            return;\n        }\n", "        if !(castle_rights.king_side || castle_rights.queen_side) {\n            return;\n        }\n")]},
+    {"name": "scan skipped when the clock exceeds the history length (seed C11-5a)", "expect": "C11-REPKEY/early-return",
+     "edits": [("src/chess/game.rs", "        self.history\n            .iter()\n            .rev()\n            .take(self.halfmove_clock as usize)\n            .any(|h| h.zobrist == self.zobrist)",
+                "        let Some(window_start) = self.history.len().checked_sub(self.halfmove_clock as usize) else {\n            return false;\n        };\n        self.history[window_start..].iter().any(|h| h.zobrist == self.zobrist)")]},
+    {"name": "benign: scan over the tail slice history[len.saturating_sub(clock)..]", "benign": True,
+     "edits": [("src/chess/game.rs", "        self.history\n            .iter()\n            .rev()\n            .take(self.halfmove_clock as usize)\n            .any(|h| h.zobrist == self.zobrist)",
+                "        let window_start = self.history.len().saturating_sub(self.halfmove_clock as usize);\n        self.history[window_start..].iter().any(|h| h.zobrist == self.zobrist)")]},
+    {"name": "tail slice one entry short", "expect": "C11-REPKEY/window",
+     "edits": [("src/chess/game.rs", "        self.history\n            .iter()\n            .rev()\n            .take(self.halfmove_clock as usize)\n            .any(|h| h.zobrist == self.zobrist)",
+                "        let window_start = (self.history.len() + 1).saturating_sub(self.halfmove_clock as usize);\n        self.history[window_start.min(self.history.len())..].iter().any(|h| h.zobrist == self.zobrist)")]},
     {"name": "copies of the game start with an empty history (seed C17-4b)", "expect": "C11-HISTORY/clone/history",
      "edits": [(G, "#[derive(Debug, Clone)]\npub struct Game {", "#[derive(Debug)]\npub struct Game {"),
                (G, "impl Game {\n", "impl Clone for Game {\n    fn clone(&self) -> Self {\n        Self {\n            player: self.player,\n            board: self.board.clone(),\n            castle_rights: self.castle_rights.clone(),\n            en_passant_target: self.en_passant_target,\n            halfmove_clock: self.halfmove_clock,\n            plies: self.plies,\n            zobrist: self.zobrist.clone(),\n            incremental_eval: self.incremental_eval.clone(),\n            history: Vec::new(),\n        }\n    }\n}\n\nimpl Game {\n")]},
